@@ -44,6 +44,33 @@ impl Leap {
   }
 }
 
+/// Every date that has an entry in the legal-holiday table (found by asking the library for every
+/// day of 2000..2027 before any simulation starts; like `Leap`, only used to aim the workload:
+/// scripts are recorded explicitly). The table is finite: walks from its first and last entries
+/// run off its ends.
+static HOLIDAYS: std::sync::OnceLock<Vec<(i64, i64, i64)>> = std::sync::OnceLock::new();
+
+pub fn build_holidays() {
+  HOLIDAYS.get_or_init(|| {
+    let mut v = Vec::new();
+    for y in 2000..=2027i64 {
+      for m in 1..=12i64 {
+        for d in 1..=31i64 {
+          let found = std::panic::catch_unwind(|| tyme4rs::tyme::holiday::LegalHoliday::from_ymd(y as isize, m as usize, d as usize).is_some()).unwrap_or(false);
+          if found {
+            v.push((y, m, d));
+          }
+        }
+      }
+    }
+    v
+  });
+}
+
+fn holidays() -> &'static [(i64, i64, i64)] {
+  HOLIDAYS.get().map(|v| v.as_slice()).unwrap_or(&[])
+}
+
 #[derive(Clone, Debug)]
 pub struct Swarm {
   pub threads: usize,
@@ -419,7 +446,10 @@ pub fn args_for(rng: &mut Rng, kind: usize, t: Tup, other: Tup) -> Vec<i64> {
     "HOL.ymd" => {
       // mostly dates that are in the holiday table (so that the answer is not trivially None)
       let y = if rng.chance(2, 3) { rng.range(2001, 2026) } else { t.y };
-      if rng.chance(2, 3) {
+      if !holidays().is_empty() && rng.chance(1, 3) {
+        let e = *rng.pick(holidays());
+        vec![e.0, e.1, e.2]
+      } else if rng.chance(2, 3) {
         let e = *rng.pick(&[(1i64, 1i64), (5, 1), (10, 1), (10, 2), (10, 3), (5, 2), (1, 2), (4, 5), (10, 5), (10, 7), (5, 3)]);
         vec![y, e.0, e.1]
       } else {
@@ -427,7 +457,28 @@ pub fn args_for(rng: &mut Rng, kind: usize, t: Tup, other: Tup) -> Vec<i64> {
       }
     }
     "SF.ymd" => vec![t.y, am, t.d.min(28).max(1)],
-    "HOL.next" => vec![rng.range(2002, 2025), *rng.pick(&[1i64, 5, 10]), *rng.pick(&[1i64, 2, 3]), rng.range(-5, 5)],
+    "HOL.next" => {
+      let hs = holidays();
+      if hs.is_empty() || rng.chance(1, 8) {
+        vec![rng.range(2002, 2025), *rng.pick(&[1i64, 5, 10]), *rng.pick(&[1i64, 2, 3]), rng.range(-5, 5)]
+      } else {
+        // entries of the table, the first and the last ones often; steps that stay inside a year,
+        // cross into the neighbouring years, and run off either end of the table
+        let edge = (hs.len() as u64).min(40);
+        let e = match rng.below(4) {
+          0 => hs[rng.below(edge) as usize],
+          1 => hs[hs.len() - 1 - rng.below(edge) as usize],
+          _ => *rng.pick(hs),
+        };
+        let n = match rng.below(4) {
+          0 => small_n(rng),
+          1 => rng.range(-3, 3),
+          2 => *rng.pick(&[30i64, -30, 45, -45, 400, -400, 1000, -1000]),
+          _ => rng.range(-14, 14),
+        };
+        vec![e.0, e.1, e.2, n]
+      }
+    }
     "EC.times" => {
       let a = t.y - rng.range(0, 70);
       vec![t.y, am, t.d.min(28).max(1), t.h, t.mi, t.s, a, a + rng.range(0, 130)]
@@ -1078,6 +1129,41 @@ fn gen_lap_run(rng: &mut Rng, sw: &Swarm, leap: &Leap, reset: bool) -> RunScript
 /// races between instructions that neither lock nor allocate. Not deterministic; whatever it
 /// finds is confirmed by repetition.
 pub fn gen_stress_run(rng: &mut Rng, leap: &Leap, reset: bool) -> RunScript {
+  // one run in sixteen is a "batch export": 8-32 threads walk through the same 300-2,600
+  // consecutive lunar months, each from its own offset, eight times over, in one tight loop per
+  // thread (no harness lock between two requests) — many distinct keys AND real parallelism (a
+  // generational or bounded structure rotates while other threads are inside it)
+  if rng.chance(1, 16) {
+    let nthreads = *rng.pick(&[8usize, 16, 32, 32]);
+    let len = *rng.pick(&[300usize, 700, 1125, 1500, 2600]);
+    let kind = if rng.chance(1, 5) { kind_by_name("LD.new").unwrap() } else { K_LM_FROM_YM };
+    let mut y = if rng.chance(1, 2) { rng.range(1, 9800) } else { rng.range(1900, 2000) };
+    let mut m = 1i64;
+    let mut months: Vec<Query> = Vec::with_capacity(len);
+    while months.len() < len {
+      let mut a = vec![y, m];
+      if KINDS[kind].arity == 3 {
+        a.push(rng.range(1, 29));
+      }
+      months.push(Query::new(kind, a.clone()));
+      if leap.of(y) == m && months.len() < len {
+        a[1] = -m;
+        months.push(Query::new(kind, a));
+      }
+      m += 1;
+      if m > 12 {
+        m = 1;
+        y += 1;
+      }
+    }
+    let mut threads: Vec<Vec<Op>> = Vec::new();
+    for _ in 0..nthreads {
+      let off = rng.below(len as u64) as usize;
+      let qs: Vec<Query> = (0..len).map(|i| months[(off + i) % len].clone()).collect();
+      threads.push(vec![Op::QAlt { qs, times: 8 * len as u64 }]);
+    }
+    return RunScript { threads, policy: Policy::Os, sched_seed: 0, hash_seed: rng.next_u64() | 1, reset, fault_free: true, alloc_period: 0 };
+  }
   let era = *rng.pick(&[1u64, 2, 2, 2, 4, 4]);
   let base = gen_tuple(rng, era, leap, false);
   let other = gen_tuple(rng, era, leap, false);
@@ -1188,5 +1274,27 @@ pub fn gen_stress_run(rng: &mut Rng, leap: &Leap, reset: bool) -> RunScript {
     }
     threads.push(ops);
   }
-  RunScript { threads, policy: Policy::Os, sched_seed: 0, hash_seed: rng.next_u64() | 1, reset, fault_free: true, alloc_period: 0 }
+  // refusal prelude (a third of the stress runs): one to three refused requests — of the classes
+  // that unwind through the month memo's critical section, plus a plain Err — on one thread or on
+  // all of them, before the hammering starts; whatever a refusal leaves behind (a flag, a parity,
+  // a half-written entry) then meets real parallelism
+  let mut any_fault = false;
+  if rng.chance(1, 3) {
+    let all = rng.chance(1, 3);
+    let n = rng.range(1, 3);
+    let victim = rng.below(threads.len() as u64) as usize;
+    for (t, ops) in threads.iter_mut().enumerate() {
+      if !all && t != victim {
+        continue;
+      }
+      for _ in 0..n {
+        let (ct, class) = corrupt(rng, base, leap);
+        let fk = if rng.chance(1, 2) { K_LM_FROM_YM } else { fault_kind(rng, class) };
+        let q = if fk == K_LM_FROM_YM { Query::new(fk, vec![base.y, *rng.pick(&[13i64, 0, -13, 14])]) } else { Query::new(fk, args_for(rng, fk, ct, other)) };
+        ops.insert(0, Op::Q { q, stop: false });
+        any_fault = true;
+      }
+    }
+  }
+  RunScript { threads, policy: Policy::Os, sched_seed: 0, hash_seed: rng.next_u64() | 1, reset, fault_free: !any_fault, alloc_period: 0 }
 }
